@@ -6,14 +6,25 @@
   database).  Cryptography enters through `IdealSig` / `CanonCorrect` hypotheses only.  The facts about
   canonical JSON that `signed_request_accepted` needs (what Sign stores as the body is valid UTF-8 and
   re-parses to the same value) are DERIVED from C01 (`canonical_body_facts`: `V.C01.canonical_eq_spec_general`,
-  `parse_encodeCanon`, `encodeCanon_sorted`, `canonical_utf8`), for bodies in C01's domain (`BodyOk`: valid
-  UTF-8, no lone surrogate escape, no duplicate key).
+  `parse_encodeCanon`, `encodeCanon_sorted`, `canonical_utf8`).
+
+  Round 3 (K5 / K7).  The two carve-outs of the earlier rounds are refusals now, in the code and here:
+  * a method / request URI / X-Matrix origin / destination that is not valid UTF-8 (json.Marshal wrote U+FFFD for
+    it on both sides, so it was not bound by the signature; the model answered `unmodelled`) is refused by
+    `readHTTPRequest` and by `Sign`: `refused_if_not_utf8`, `accepted_fields_utf8`;
+  * a body with duplicate member names or ill-formed strings (lone surrogate escapes) is refused by the gate of
+    SignJSON / VerifyJSON: `ambiguous_body_refused` (receiver, key ring), and `sign` refuses it on the sending
+    side, which is why the residue of the completeness theorems shrinks to `BodyOk` = "the body is valid UTF-8"
+    (a body that is not is refused: `refused_if` (6)); `signed_request_accepted_gated` is completeness against
+    the key ring WITH its gate (what Sign stores passes it: `canonical_strict`).
 
   Partial claims (props/C13.py): net/http, net/url and mime are parameters of the model (`HttpReq`,
-  `urlRequestURI`); fields that are not valid UTF-8 are outside the model (json.Marshal rewrites them).
+  `urlRequestURI`); residue outside the model: a key ID or signature TEXT in an X-Matrix header that is not valid
+  UTF-8 (neither is a signed field).
 -/
 import VModel.FedReq
 import VProofs.FedReq
+import VProofs.FedReqStrict
 import VProofs.JsonUtf8
 import VProps.C01
 import VGen.C13
@@ -269,7 +280,11 @@ private theorem accepted_core (S : SigScheme)
           (S.sign pk (signingObject none f0.destination f0.method serverName f0.uri)) = true) :
     verifyHTTPRequest req now destination isLocal (keyRingVerifier table false wc S.check) = .ok f ∧
       f.method = f0.method ∧ f.uri = f0.uri ∧ f.origin = serverName ∧ f.destination = f0.destination := by
-  obtain ⟨so, sd, sm, su, hmar, hkidv, cv0, hcv0, hsigs, hcnone, hcsome⟩ := sign_shape f0 f serverName keyID _ hsign
+  obtain ⟨so, sd, sm, su, hmar, hkidv, cv0, hcv0, hsigs, hcnone, hcsome, _⟩ := sign_shape f0 f serverName keyID _ hsign
+  have hfu8 : fieldsUTF8 f = true := by
+    have := sign_fieldsUTF8 f0 f serverName keyID _ hsign
+    simp only [fieldsUTF8] at this ⊢
+    rw [sd, sm, so, su]; exact this
   rw [hnosig] at hsigs
   simp only [setSig, List.any_nil, Bool.false_eq_true, ↓reduceIte, List.nil_append] at hsigs
   -- the signature text
@@ -311,7 +326,7 @@ private theorem accepted_core (S : SigScheme)
       rw [so, sd]; exact ⟨hcomma.1, hcomma.2.1, hsc, hcomma.2.2⟩
     have h5 : f.origin ≠ [] ∧ keyID ≠ [] ∧ S.sign pk (signingObject cv0 f0.destination f0.method serverName f0.uri) ≠ [] := by
       rw [so]; exact ⟨hname, hkne, hsne⟩
-    exact read_produced f up req keyID _ hreq hsigs h1 h2 h3 hsq h5
+    exact read_produced f up req keyID _ hreq hsigs h1 h2 h3 hsq h5 hfu8
   -- marshalable
   have hmarF : marshalable f = true := by
     simp only [marshalable, Bool.and_eq_true, List.all_eq_true] at hmar ⊢
@@ -344,19 +359,29 @@ private theorem accepted_core (S : SigScheme)
     rw [hkpk, sd, sm, so, su, hcv0s]
     exact hchk
 
-/-- A body in the domain of C01's specification: valid UTF-8 (anything else is refused — `refused_if` (6)), and the
-    value it denotes has no lone surrogate escape and no duplicate key (outside the model: `CompactJSON` drops a lone
-    surrogate escape, gjson's sort order of equal keys is unspecified). -/
-def BodyOk (raw : Bytes) : Prop :=
-  utf8Valid raw = true ∧ ∀ p, parse raw = some p → p.surrogatesOk = true ∧ p.noDupKeys = true
+/-- The residue of the completeness theorems: the body is valid UTF-8 (anything else is refused — `refused_if` (6)).
+    "No lone surrogate escape, no duplicate key" used to be part of it; these bodies are refused by `sign` now (the
+    gate of SignJSON), so the hypothesis `hsign` already excludes them (`signed_body_strict`). -/
+def BodyOk (raw : Bytes) : Prop := utf8Valid raw = true
+
+/-- A request that `sign` accepted has a body the gate lets through: it parses, every string is well formed (hence no
+    lone surrogate escape), no object has two members with one name. -/
+theorem signed_body_strict {f0 f : Fields} {serverName keyID : Str} {mk : JVal → Str}
+    (hsign : sign f0 serverName keyID mk = .ok f) {raw : Bytes} (hc0 : f0.content = some raw) (hne : raw ≠ []) :
+    ∃ p, parse raw = some p ∧ p.wellFormed = true ∧ p.surrogatesOk = true ∧ p.noDupKeys = true := by
+  obtain ⟨_, _, _, _, _, _, _, _, _, _, _, hstrict⟩ := sign_shape f0 f serverName keyID mk hsign
+  rw [hc0] at hstrict
+  obtain ⟨p, hp, hw, hd⟩ := (contentStrict_some hne).mp hstrict
+  exact ⟨p, hp, hw, surrogatesOk_of_wellFormed p hw, hd⟩
 
 /-- A request (NewFederationRequest + optional SetContent = `f0`, not yet signed) signed by its origin with a
     key the receiver holds as valid at the time of receipt, rendered by HTTPRequest and delivered unchanged, is
     accepted at the named destination, and VerifyHTTPRequest reports the signed fields (`f`: method, URI,
     origin, destination as given; the content in canonical form).
 
-    C01's facts about canonical JSON are no longer assumed: they are `canonical_body_facts`, for every body that is
-    valid UTF-8, without lone surrogate escapes and without duplicate keys (`BodyOk`).  One further restriction is
+    C01's facts about canonical JSON are not assumed: they are `canonical_body_facts`, for every body that is valid
+    UTF-8 (`BodyOk`; that it has no lone surrogate escape and no duplicate key follows from `hsign`: Sign refuses such
+    bodies).  One further restriction is
     forced by `IdealSig.correct`, which promises a valid check only for objects equal *up to member order*: no number of
     the body is the literal `-0` (canonical JSON writes it `0`, so the receiver's object differs from the signed one in
     that literal).  `signed_request_accepted_canon` removes it under the byte-level reading of correctness. -/
@@ -383,13 +408,9 @@ theorem signed_request_accepted (S : SigScheme) (hS : IdealSig S)
   apply accepted_core S f0 f serverName keyID pk up req now destination isLocal table wc hsign hreq hnosig hmethod hdest
     hown hname hvalid hkid hkey hcomma hsigtext hcontent
   · intro raw c hc0 hcan
-    obtain ⟨⟨hu, hwf⟩, hnz⟩ := hbody raw hc0
-    have hv : valid raw = true := by
-      cases hvv : valid raw with
-      | true => rfl
-      | false => simp [canonical, hvv] at hcan
-    obtain ⟨p, hp⟩ := Option.isSome_iff_exists.mp (show (parse raw).isSome = true from hv)
-    obtain ⟨hs, hd⟩ := hwf p hp
+    obtain ⟨hu, hnz⟩ := hbody raw hc0
+    have hrne : raw ≠ [] := by intro e; rw [e] at hc0; exact hcontent hc0
+    obtain ⟨p, hp, _, hs, hd⟩ := signed_body_strict hsign hc0 hrne
     obtain ⟨_, hcu, p', hp', _, _, hsort⟩ := canonical_body_facts hp hu hs hd hcan
     exact ⟨hcu, p, p', hp, hp', hS.correct _ _ _ (signingObject_sorted_congr _ _ _ _ _ _ (by simp [hsort (hnz p hp)]))⟩
   · exact hS.correct _ _ _ rfl
@@ -410,7 +431,7 @@ theorem encodeCanon_signingObject_congr (a b : JVal) (d m o u : Bytes) (h : enco
   simp only [encode, encodeMembers, h]
 
 /-- The same at full strength for bodies containing `-0`: with correctness read at the level of the signed bytes
-    (`CanonCorrect`), every signed request whose body is in C01's domain (`BodyOk`) is accepted. -/
+    (`CanonCorrect`), every signed request whose body is valid UTF-8 (`BodyOk`) is accepted. -/
 theorem signed_request_accepted_canon (S : SigScheme) (hS : CanonCorrect S)
     (f0 f : Fields) (serverName keyID : Str) (pk : Nat) (up : Option Str) (req : HttpReq)
     (now : Millis) (destination : Str) (isLocal : Option (Str → Bool)) (table : List KeyEntry) (wc : Nat)
@@ -434,16 +455,118 @@ theorem signed_request_accepted_canon (S : SigScheme) (hS : CanonCorrect S)
   apply accepted_core S f0 f serverName keyID pk up req now destination isLocal table wc hsign hreq hnosig hmethod hdest
     hown hname hvalid hkid hkey hcomma hsigtext hcontent
   · intro raw c hc0 hcan
-    obtain ⟨hu, hwf⟩ := hbody raw hc0
-    have hv : valid raw = true := by
-      cases hvv : valid raw with
-      | true => rfl
-      | false => simp [canonical, hvv] at hcan
-    obtain ⟨p, hp⟩ := Option.isSome_iff_exists.mp (show (parse raw).isSome = true from hv)
-    obtain ⟨hs, hd⟩ := hwf p hp
+    have hu := hbody raw hc0
+    have hrne : raw ≠ [] := by intro e; rw [e] at hc0; exact hcontent hc0
+    obtain ⟨p, hp, _, hs, hd⟩ := signed_body_strict hsign hc0 hrne
     obtain ⟨_, hcu, p', hp', _, henc, _⟩ := canonical_body_facts hp hu hs hd hcan
     exact ⟨hcu, p, p', hp, hp', hS _ _ _ (encodeCanon_signingObject_congr _ _ _ _ _ _ henc)⟩
   · exact hS _ _ _ rfl
+
+/-! ### Round 3: the gate of the key ring, and fields that are not valid UTF-8 -/
+
+/-- Completeness against the key ring WITH the gate of VerifyJSON (`verifyWithKeyRing`): what Sign stores as the body
+    — canonical JSON of a body that passed the sender's gate — passes the receiver's gate (`canonical_strict`), so the
+    signed request is accepted exactly as in `signed_request_accepted_canon`. -/
+theorem signed_request_accepted_gated (S : SigScheme) (hS : CanonCorrect S)
+    (f0 f : Fields) (serverName keyID : Str) (pk : Nat) (up : Option Str) (req : HttpReq)
+    (now : Millis) (destination : Str) (isLocal : Option (Str → Bool)) (table : List KeyEntry) (wc : Nat)
+    (hsign : sign f0 serverName keyID (S.sign pk) = .ok f)
+    (hreq : httpRequest f up = .ok req)
+    (hnosig : f0.signatures = [])
+    (hmethod : f0.method ≠ [])
+    (hdest : f0.destination ≠ [])
+    (hown : match isLocal with
+      | some loc => loc f0.destination = true
+      | none => destination = f0.destination)
+    (hname : serverName ≠ []) (hvalid : validServerName serverName = true)
+    (hkid : ed25519Prefix.isPrefixOf keyID = true)
+    (hkey : ∃ k ∈ table, k.server = serverName ∧ k.keyID = keyID ∧ k.pk = pk ∧ wasValidAt wc k now = true)
+    (hcomma : 0x2C ∉ serverName ∧ 0x2C ∉ keyID ∧ 0x2C ∉ f0.destination)
+    (hsigtext : ∀ obj, 0x2C ∉ S.sign pk obj ∧ 0x22 ∉ S.sign pk obj ∧ S.sign pk obj ≠ [] ∧ utf8Valid (S.sign pk obj) = true)
+    (hcontent : f0.content ≠ some [])
+    (hbody : ∀ raw, f0.content = some raw → BodyOk raw) :
+    verifyWithKeyRing req now destination isLocal table false wc S.check = .ok f ∧
+      f.method = f0.method ∧ f.uri = f0.uri ∧ f.origin = serverName ∧ f.destination = f0.destination := by
+  have hacc := signed_request_accepted_canon S hS f0 f serverName keyID pk up req now destination isLocal table wc hsign hreq
+    hnosig hmethod hdest hown hname hvalid hkid hkey hcomma hsigtext hcontent hbody
+  have hstrict : contentStrict (some req.body) = true := by
+    by_cases hb : req.body = []
+    · rw [hb]; rfl
+    · obtain ⟨_, _, _, f4, _⟩ := accepted_facts req now destination isLocal _ f hacc.1
+      obtain ⟨hfc, _, _⟩ := f4 hb
+      obtain ⟨_, _, _, _, _, _, _, _, _, hcnone, hcsome, _⟩ := sign_shape f0 f serverName keyID _ hsign
+      cases hc0 : f0.content with
+      | none => rw [hcnone (Or.inl hc0)] at hfc; cases hfc
+      | some raw =>
+        have hrne : raw ≠ [] := by intro e; rw [e] at hc0; exact hcontent hc0
+        obtain ⟨c, hcan, hfc'⟩ := hcsome raw hc0 hrne
+        rw [hfc'] at hfc
+        simp only [Option.some.injEq] at hfc
+        obtain ⟨p, hp, _, hs, hd⟩ := signed_body_strict hsign hc0 hrne
+        have hu := hbody raw hc0
+        obtain ⟨hce, _⟩ := canonical_body_facts hp hu hs hd hcan
+        rw [← hfc, hce]
+        exact canonical_strict hp hu hd
+  rw [verifyWithKeyRing_of_strict _ _ _ _ _ _ _ _ hstrict]
+  exact hacc
+
+/-- **A body its readers disagree on is refused** (K7 for requests): whatever the headers, the keys and the
+    signatures, a request whose body has two members with one name in some object, or a string / member name that is
+    not well formed (a lone surrogate escape), is not accepted by a receiver whose JSONVerifier is a key ring —
+    VerifyJSON's gate fails for every key.  (It used to be accepted under a signature made over the body as
+    encoding/json and CompactJSON read it.) -/
+theorem ambiguous_body_refused (req : HttpReq) (now : Millis) (destination : Str) (isLocal : Option (Str → Bool))
+    (table : List KeyEntry) (dbError : Bool) (wc : Nat) (check : Nat → JVal → Str → Bool)
+    (h : contentStrict (some req.body) = false) :
+    ∀ r, verifyWithKeyRing req now destination isLocal table dbError wc check ≠ .ok r := by
+  unfold verifyWithKeyRing
+  apply refused_if
+  right; right; right; right; right; right
+  intro a _ obj sigs
+  exact gated_never_accepts req.body h table dbError wc check a.origin now obj sigs
+
+/-- **Sign refuses such a body too**, and a method / URI / origin / destination that is not valid UTF-8. -/
+theorem sign_refuses (f0 : Fields) (serverName keyID : Str) (mk : JVal → Str)
+    (h : contentStrict f0.content = false ∨ fieldsUTF8 { f0 with origin := serverName } = false) :
+    ∀ f, sign f0 serverName keyID mk ≠ .ok f := by
+  intro f hs
+  rcases h with h | h
+  · obtain ⟨_, _, _, _, _, _, _, _, _, _, _, hstrict⟩ := sign_shape f0 f serverName keyID mk hs
+    rw [hstrict] at h; cases h
+  · rw [sign_fieldsUTF8 f0 f serverName keyID mk hs] at h; cases h
+
+/-- **Fields that are not valid UTF-8 are refused** (K5): a transmitted request whose method or request URI, or whose
+    X-Matrix origin or destination, is not valid UTF-8 is not accepted — by any verifier.  (json.Marshal wrote U+FFFD for
+    every invalid sequence, on both sides: `PUT /a?user=<U+FFFD>` signed, `/a?user=\xc0` transmitted, was accepted.) -/
+theorem refused_if_not_utf8 (req : HttpReq) (now : Millis) (destination : Str) (isLocal : Option (Str → Bool)) (V : Verifier)
+    (h : utf8Valid req.method = false ∨ utf8Valid req.requestURI = false ∨
+      ∃ a ∈ xMatrixAuths req.authorization, utf8Valid a.origin = false ∨ utf8Valid a.destination = false) :
+    ∀ r, verifyHTTPRequest req now destination isLocal V ≠ .ok r := by
+  intro r hok
+  obtain ⟨f, hf⟩ := verify_ok_read req now destination isLocal V r hok
+  obtain ⟨hm, hu, ha⟩ := readHTTPRequest_utf8 req f hf
+  rcases h with h | h | ⟨a, hmem, h | h⟩
+  · rw [hm] at h; cases h
+  · rw [hu] at h; cases h
+  · rw [(ha a hmem).1] at h; cases h
+  · rw [(ha a hmem).2] at h; cases h
+
+/-- … in positive form: every signed string field an accepted request reports is valid UTF-8, so the JSON object the
+    signature was checked over carries exactly these bytes (`binding` is then a statement about the transmitted bytes). -/
+theorem accepted_fields_utf8 (req : HttpReq) (now : Millis) (destination : Str) (isLocal : Option (Str → Bool))
+    (V : Verifier) (r : Fields) (h : verifyHTTPRequest req now destination isLocal V = .ok r) :
+    utf8Valid r.method = true ∧ utf8Valid r.uri = true ∧ utf8Valid r.origin = true ∧
+    (∀ a, claimed req = some a → a.destination ≠ [] → utf8Valid r.destination = true) := by
+  obtain ⟨f, hf⟩ := verify_ok_read req now destination isLocal V r h
+  obtain ⟨hm, hu, ha⟩ := readHTTPRequest_utf8 req f hf
+  obtain ⟨f1, f2, _, _, ⟨a, hcl, _, ho, hd⟩, _⟩ := accepted_facts req now destination isLocal V r h
+  have hmem : a ∈ xMatrixAuths req.authorization := List.mem_of_getLast? hcl
+  refine ⟨by rw [f1]; exact hm, by rw [f2]; exact hu, by rw [ho]; exact (ha a hmem).1, ?_⟩
+  intro b hb hne
+  rw [hcl] at hb; simp only [Option.some.injEq] at hb; subst hb
+  have hde : a.destination.isEmpty = false := by simpa using hne
+  rw [hd, hde]; simp only [Bool.false_eq_true, ↓reduceIte]
+  exact (ha a hmem).2
 
 /-! ### Non-vacuity: the hypotheses are jointly satisfiable -/
 
@@ -485,19 +608,15 @@ example : CanonCorrect toyScheme := by
 /-- `hbody` of `signed_request_accepted` is satisfiable by an ordinary body: `{"b":1, "a":[1,"é\n"]}` -/
 example : BodyOk (bz!"{\"b\":1, \"a\":[1,\"é\\n\"]}") ∧
     ∀ p, parse (bz!"{\"b\":1, \"a\":[1,\"é\\n\"]}") = some p → noNegZero p = true := by
-  have h : (parse (bz!"{\"b\":1, \"a\":[1,\"é\\n\"]}")).all (fun p => p.surrogatesOk && p.noDupKeys && noNegZero p) = true := by
+  have h : (parse (bz!"{\"b\":1, \"a\":[1,\"é\\n\"]}")).all (fun p => noNegZero p) = true := by
     decide
-  refine ⟨⟨by decide, fun p hp => ?_⟩, fun p hp => ?_⟩ <;>
-  · rw [hp] at h
-    simp only [Option.all_some, Bool.and_eq_true] at h
-    first | exact ⟨h.1.1, h.1.2⟩ | exact h.2
+  refine ⟨by unfold BodyOk; decide, fun p hp => ?_⟩
+  rw [hp] at h
+  simpa using h
 
 /-- `hbody` of `signed_request_accepted_canon`: a body containing `-0` is in its domain -/
 example : BodyOk (bz!"{\"b\":-0, \"a\":[1,\"é\\n\"]}") := by
-  have h : (parse (bz!"{\"b\":-0, \"a\":[1,\"é\\n\"]}")).all (fun p => p.surrogatesOk && p.noDupKeys) = true := by decide
-  refine ⟨by decide, fun p hp => ?_⟩
-  rw [hp] at h
-  simpa using h
+  unfold BodyOk; decide
 
 /-- a concrete accepted request with a body (a PUT whose body contains `-0` and a non-ASCII string, sent with its
     members out of order), evaluated by the kernel: the receiver reports the canonical body -/
@@ -516,5 +635,30 @@ example :
        | .error _ => false)
     | .error _ => false) = true := by
   decide +kernel
+
+/-! ### The inputs of K5 / K7, now refused -/
+
+/-- K5: `/a?user=\xc0` (signed: `/a?user=<U+FFFD>`) — refused whatever the headers and the verifier -/
+example (auth : List Str) (body : Bytes) (mt : Option Str) (now : Millis) (d : Str) (l : Option (Str → Bool)) (V : Verifier) :
+    ∀ r, verifyHTTPRequest ⟨bz!"PUT", [0x2F, 0x61, 0x3F, 0x75, 0x73, 0x65, 0x72, 0x3D, 0xC0], body, mt, auth⟩ now d l V ≠ .ok r :=
+  refused_if_not_utf8 _ now d l V (Or.inr (Or.inl (by dsimp only; decide)))
+
+/-- K5, sending side: Sign refuses `PUT /_matrix/x?q=\xff` (it used to store `/_matrix/x?q=<U+FFFD>`) -/
+example (mk : JVal → Str) : ∀ f, sign (newRequest (bz!"PUT") [] (bz!"b.example") [0x2F, 0x78, 0x3F, 0x71, 0x3D, 0xFF])
+    (bz!"a.example") (bz!"ed25519:1") mk ≠ .ok f :=
+  sign_refuses _ _ _ mk (Or.inr (by decide))
+
+/-- K7: the bodies `{"a":"a\ud800b","n":{"x":1}}` and `{"a":"EVIL","a":"ab","n":{"x":1}}` (signed: `{"a":"ab","n":{"x":1}}`) -/
+example (m u : Str) (auth : List Str) (now : Millis) (d : Str) (l : Option (Str → Bool)) (table : List KeyEntry) (db : Bool)
+    (wc : Nat) (check : Nat → JVal → Str → Bool) :
+    (∀ r, verifyWithKeyRing ⟨m, u, bz!"{\"a\":\"a\\ud800b\",\"n\":{\"x\":1}}", some applicationJSON, auth⟩ now d l table db wc check ≠ .ok r) ∧
+    (∀ r, verifyWithKeyRing ⟨m, u, bz!"{\"a\":\"EVIL\",\"a\":\"ab\",\"n\":{\"x\":1}}", some applicationJSON, auth⟩ now d l table db wc check ≠ .ok r) :=
+  ⟨ambiguous_body_refused _ now d l table db wc check (by dsimp only; decide),
+   ambiguous_body_refused _ now d l table db wc check (by dsimp only; decide)⟩
+
+/-- … and Sign refuses to sign `{"a":1,"a":2}` -/
+example (mk : JVal → Str) : ∀ f, sign { newRequest (bz!"PUT") [] (bz!"b.example") (bz!"/a") with content := some (bz!"{\"a\":1,\"a\":2}") }
+    (bz!"a.example") (bz!"ed25519:1") mk ≠ .ok f :=
+  sign_refuses _ _ _ mk (Or.inl (by decide))
 
 end V.C13
